@@ -55,6 +55,16 @@ DEEP_MAIN = (f'<xs:schema xmlns:xs="http://www.w3.org/2001/XMLSchema" targetName
              '</xs:sequence></xs:complexType></xs:element></xs:schema>')
 
 
+# wildcards whose namespace attribute LISTS several tokens (field names and metadata are derived from the list)
+WILD_LISTS = ('<xs:schema xmlns:xs="http://www.w3.org/2001/XMLSchema" targetNamespace="urn:w" xmlns:t="urn:w" elementFormDefault="qualified">'
+              '<xs:complexType name="Open"><xs:sequence><xs:element name="head" type="xs:string"/>'
+              '<xs:any namespace="urn:a urn:b ##targetNamespace" processContents="lax" minOccurs="0" maxOccurs="unbounded"/></xs:sequence>'
+              '<xs:anyAttribute namespace="urn:x ##local urn:y" processContents="lax"/></xs:complexType>'
+              '<xs:complexType name="Wide"><xs:sequence><xs:any namespace="http://one.example/ns http://two.example/ns urn:three ##local" processContents="skip" minOccurs="0"/>'
+              '<xs:element name="tail" type="t:Open" minOccurs="0"/></xs:sequence></xs:complexType>'
+              '<xs:element name="open" type="t:Open"/><xs:element name="wide" type="t:Wide"/></xs:schema>')
+
+
 def source_sets():
     sets = []
 
@@ -67,6 +77,7 @@ def source_sets():
     sets.append(("hello-wsdl", {"hello.wsdl": fx("hello", "hello.wsdl")}, ["hello.wsdl"]))
     sets.append(("dtd", {"complete_example.dtd": fx("dtd", "complete_example.dtd")}, ["complete_example.dtd"]))
     sets.append(("cyclic-two-namespaces", {"a.xsd": CYCLIC_A, "b.xsd": CYCLIC_B}, ["a.xsd", "b.xsd"]))
+    sets.append(("wildcard-lists", {"w.xsd": WILD_LISTS}, ["w.xsd"]))
     sets.append(("deep-ns-clash", {"main.xsd": DEEP_MAIN, "north.xsd": _ns_schema(DEEP_A), "south.xsd": _ns_schema(DEEP_B, '<xs:element name="n" type="xs:int"/>')}, ["main.xsd"]))
     for name in ("series",):
         d = FIX / name
